@@ -1,11 +1,13 @@
 #!/usr/bin/env python3
 """Confirm a seeded change produced by a sub-agent, in its scratch worktree, and file it under /verif/seeded/<id>/.
-usage: confirm_seeded.py PROP VARIANT        (reads /tmp/wt/PROP/_seeded/VARIANT)
+usage: confirm_seeded.py PROP VARIANT [BASE=/tmp/wt] [OUTVARIANT]       (reads BASE/PROP/_seeded/VARIANT)
 Checks: demo exits 0 on the clean worktree; patch applies; demo exits non-zero with it; the test files of the touched
 modules pass with it; worktree restored.  Writes seeded/PROP_VARIANT/{patch.diff,demo.py,meta.json}."""
 import sys, os, subprocess, json, shutil, re, glob
 prop, var = sys.argv[1], sys.argv[2]
-wt = f'/tmp/wt/{prop}'; src = f'{wt}/_seeded/{var}'
+base = sys.argv[3] if len(sys.argv) > 3 else '/tmp/wt'
+outvar = sys.argv[4] if len(sys.argv) > 4 else var
+wt = f'{base}/{prop}'; src = f'{wt}/_seeded/{var}'
 PY = '/venv/bin/python'
 TESTS = {
  'bbt.py': ['test_bbt.py', 'test_loci.py'], 'drawset.py': ['test_bbt.py', 'test_loci.py'],
@@ -48,7 +50,7 @@ sh('git checkout -- . && git clean -fdq -e _seeded')
 meta = json.load(open(f'{src}/meta.json'))
 meta.update(property=prop, variant=var, touched=touched, confirmed=bool(ok), confirmation=log, test_cmd=cmd,
             base_commit=sh('git rev-parse HEAD').stdout.strip())
-out = f'/verif/seeded/{prop}_{var}'
+out = f'/verif/seeded/{prop}_{outvar}'
 os.makedirs(out, exist_ok=True)
 shutil.copy(f'{src}/patch.diff', f'{out}/patch.diff'); shutil.copy(demo, f'{out}/demo.py')
 json.dump(meta, open(f'{out}/meta.json', 'w'), indent=1)
